@@ -63,6 +63,10 @@ STATE_EXCEPT = lambda *fields: " && ".join(
      "max_queue_num", "error", "hdr_flags"] if f not in fields)
 
 
+# bytes the GET_CONFIG reply receive waits for (single source: used in the method contract and in the compat lemma, units_compat.py)
+GET_CONFIG_DEMAND = "12 + 12 + size"
+
+
 def methods():
     m = {}
     u64b = lambda v: "VhostUserU64 { value: %s }.bytes()" % v
@@ -139,7 +143,7 @@ def methods():
         "%s && %s.fds.len() == 0 && config_valid(VhostUserConfig::decode(%s.body)) && %s.size == 12 + %s.payload.len() "
         "&& %s.payload.len() == buf@.len() && VhostUserConfig::decode(%s.body).size == size && VhostUserConfig::decode(%s.body).offset == offset"
         % (matches(f), LX, LX, LX, LX, LX, LX, LX),
-        "r->Ok_0.0 == VhostUserConfig::decode(%s.body) && r->Ok_0.1@ == %s.payload" % (LX, LX), pre=", buf@.len() <= isize::MAX")
+        "r->Ok_0.0 == VhostUserConfig::decode(%s.body) && r->Ok_0.1@ == %s.payload && %s.demand == %s" % (LX, LX, LX, GET_CONFIG_DEMAND), pre=", buf@.len() <= isize::MAX")
     cfg2 = "VhostUserConfig { offset: offset, size: buf@.len() as u32, flags: flags.bits }"
     m["set_config"] = ack_contract(
         "(%s || buf@.len() > 4096 || !config_valid(%s) || %s || 12 + buf@.len() > 4096)" % (ERR, cfg2, gate_pf(9)),
@@ -265,6 +269,7 @@ def helpers():
             rx1(*old(self), *final(self)) ==> (r is Ok) == (reply_matches(%(LX)s, *hdr) && %(LX)s.fds.len() == 0 && T::decode(%(LX)s.body).valid_spec()
                 && %(LX)s.size == T::spec_size() + %(LX)s.payload.len() && %(LX)s.payload.len() == hdr.size - T::spec_size()), // [C06,C03]
             r is Ok ==> r->Ok_0.0 == T::decode(%(LX)s.body) && r->Ok_0.1@ == %(LX)s.payload && r->Ok_0.2 is None, // [C03,C06]
+            rx1(*old(self), *final(self)) ==> %(LX)s.demand == 12 + T::spec_size() + (hdr.size - T::spec_size()), // [C03] the receive waits for the whole declared reply
 """ % dict(same=same, LX=LXS))))
     h.append(("wait_for_ack", dict(contract="""
         requires !failed(*old(self)), hdr.flags & 4 == 0, !self_err(*old(self))
